@@ -472,12 +472,20 @@ func (c *RetryClient) Retry(ctx context.Context) {
 			c.stats.TotalRetries++
 			c.muStats.Unlock()
 
+			nQueued := len(c.retryQueue)
 			err := retry(ctx, cli)
 			if retryErr, ok := err.(ErrorWithRetry); ok {
 				c.onError(err)
 				c.retryQueue = append(c.retryQueue, c.retryWithRequestContext(retryErr.Retry))
 				c.retryQueue = append(c.retryQueue, oldRetryQueue[i+1:]...)
 				c.newRetryByError = true
+				verifEvent("retryRequeue", int64(len(c.retryQueue)))
+				break
+			}
+			if len(c.retryQueue) > nQueued {
+				// A deferred request failed and queued its own retry.
+				// Keep the following requests behind it.
+				c.retryQueue = append(c.retryQueue, oldRetryQueue[i+1:]...)
 				verifEvent("retryRequeue", int64(len(c.retryQueue)))
 				break
 			}
